@@ -153,6 +153,18 @@ func HarnessC12History(st any) {
 				sym.Assert(cc.Request() == req2 && cc.Pattern() == wantPattern && cc.Param("id") == wantID, "CloneWith carries the route and parameters with the new request")
 				cc.Close()
 				sym.Cover("CloneWith in a handler")
+				// CloneWith / Lookup handed the router's own writer: a Clone of that context shows the current response
+				cw := c.CloneWith(c.Writer(), req2)
+				cl2 := cw.Clone()
+				sym.Assert(cl2.Writer().Status() == w.Status() && cl2.Writer().Size() == w.Size() && cl2.Writer().Written() == w.Written(), "Clone of a CloneWith context sharing the writer shows the current response state")
+				sym.Assert(cl2.Writer().Header().Get("R-Tok") == tok("r", i), "Clone of a CloneWith context sharing the writer shows the current response headers")
+				cw.Close()
+				lrte, lcc, _ := s.r.Lookup(c.Writer(), c12Request(shDirect, 5))
+				if lcc != nil {
+					cl3 := lcc.Clone()
+					sym.Assert(lrte != nil && cl3.Writer().Status() == w.Status() && cl3.Writer().Size() == w.Size(), "Clone of a Lookup context sharing the writer shows the current response state")
+					lcc.Close()
+				}
 			}
 		}
 		switch shape {
